@@ -24,6 +24,7 @@ spec iscmp(f func) bool = forall a T, b T :: {f(a, b)} f(a, b) == cmp(a, b)
 spec cnt(t Tree, x T) int
 axiom cnt_leaf(x T) auto: {cnt(Leaf, x)} cnt(Leaf, x) == 0
 axiom cnt_node(l Tree, v T, h int, r Tree, x T) auto: {cnt(Node(l, v, h, r), x)} cnt(Node(l, v, h, r), x) == cnt(l, x) + b2i(v == x) + cnt(r, x) && cnt(l, x) >= 0 && cnt(r, x) >= 0
+axiom cnt_root(l Tree, v T, h int, r Tree) auto: {Node(l, v, h, r)} cnt(Node(l, v, h, r), v) > 0
 spec size(t Tree) int
 axiom size_leaf() auto: size(Leaf) == 0
 axiom size_node(l Tree, v T, h int, r Tree) auto: {Node(l, v, h, r)} size(Node(l, v, h, r)) == size(l) + 1 + size(r) && size(l) >= 0 && size(r) >= 0
